@@ -146,7 +146,7 @@ def gen_mixed(rng, idx, tier):
                     s.meta[u] = dict(kind='F', dests=[d], len=ln, parent=-1, epoch=e, origin=r, state=st)
                     s.msg[u] = []
                 elif x < 0.97 and not masked:
-                    cid = len(s.cb) + 1
+                    cid = len(s.cb) + 1 + 100 * r
                     body = []
                     if rng.random() < 0.7:
                         u = new_uid()
@@ -155,6 +155,17 @@ def gen_mixed(rng, idx, tier):
                         s.meta[u] = dict(kind='A', dests=[d], len=body[-1][3], parent=-2 - cid, epoch=e, origin=r)
                         s.msg[u] = gen_handler(u, 2, e)
                     s.cb[cid] = body
+                    if rng.random() < 0.5:
+                        # a callback that registers another callback while the barrier is draining the list
+                        cid2 = cid + 1
+                        body2 = []
+                        u = new_uid()
+                        d = rng.randrange(n)
+                        body2.append(['A', d, u, rng.choice([0, 10])])
+                        s.meta[u] = dict(kind='A', dests=[d], len=body2[-1][3], parent=-2 - cid2, epoch=e, origin=r)
+                        s.msg[u] = []
+                        s.cb[cid2] = body2
+                        body.append(['CB', cid2])
                     prog.append(['CB', cid])
                 elif masked:
                     prog.append(['MOFF'])
@@ -296,7 +307,22 @@ def gen_masked(rng, idx):
     s.nbar = 1
     return s
 
-GENERATORS = {'mixed': gen_mixed, 'aggregate': gen_aggregate, 'stream': gen_stream, 'storm': gen_handler_storm, 'masked': gen_masked}
+def gen_collective(rng, idx):
+    """K1 (known finding): a rank sits in a blocking collective, which does not service receives, while a peer's
+    asyncs wait for back-pressure on rendezvous sends that nobody will receive."""
+    s = Scenario(2, 2, 'NONE', 1, nirecv=1, nisw=0, freq=0, eager=0, policy='uniform', seed=7 + idx, kind='collective')
+    u = 100
+    for _ in range(6):
+        u += 1
+        s.main[0].append(['A', 1, u, 100000]); s.meta[u] = dict(kind='A', dests=[1], len=100000, parent=-1, epoch=1, origin=0); s.msg[u] = []
+    s.main[0].append(['COLL'])
+    s.main[1].append(['COLL'])
+    for r in range(2):
+        s.main[r].append(['BAR'])
+    s.nbar = 1
+    return s
+
+GENERATORS = {'collective': gen_collective, 'mixed': gen_mixed, 'aggregate': gen_aggregate, 'stream': gen_stream, 'storm': gen_handler_storm, 'masked': gen_masked}
 
 def expected_execs(s):
     """uid -> list of ranks on which the handler must run (with multiplicity)."""
@@ -363,7 +389,7 @@ def run_many(scens, glog=False, workers=None):
 def gen_suite(seed, tier, kinds):
     rng = random.Random(seed * 7919 + 13)
     quick = tier == 'quick'
-    counts = {'mixed': 60 if quick else 1200, 'aggregate': 16 if quick else 200, 'stream': 12 if quick else 150,
+    counts = {'collective': 1, 'mixed': 60 if quick else 1200, 'aggregate': 16 if quick else 200, 'stream': 12 if quick else 150,
               'storm': 20 if quick else 300, 'masked': 14 if quick else 200}
     out = []
     for k in kinds:
@@ -390,8 +416,12 @@ def oracle_liveness(s, r):
     if r['verdict'] == 'ok':
         return []
     exc = [n[4] for n in r['notes'] if n[3] == 'EXC']
-    return [fail(s, r, 'run ended with %s%s' % (r['verdict'], (': ' + r['detail']) if r['detail'] else ''), states=r['states'], exception=exc[:3],
-                 stderr=r.get('stderr'))]
+    what = 'run ended with %s%s' % (r['verdict'], (': ' + r['detail']) if r['detail'] else '')
+    blocked = [l for l in r['states'] if 'blocked-in ALLREDUCE' in l or 'blocked-in BCAST' in l or 'blocked-in EXSCAN' in l]
+    polling = [l for l in r['states'] if '(polling)' in l]
+    if r['verdict'] in ('spin', 'deadlock') and blocked and polling and s.kind == 'collective':
+        what += ' [a rank is inside a blocking collective (it does not service receives) while a peer polls in the back-pressure wait of async]'
+    return [fail(s, r, what, states=r['states'], exception=exc[:3], stderr=r.get('stderr'))]
 
 def oracle_exactly_once(s, r, kinds=('A', 'AR', 'F', 'M', 'B')):
     """C01 / C05: every message's handler runs exactly once per expected destination, there, with its arguments."""
@@ -672,6 +702,8 @@ def lockstep_scenario(s):
             out['status'] = m.group(1)
             out['events'] = int(m.group(3))
             out['mismatches'] = [l for l in o.split('\n') if 'MISMATCH' in l][:6]
+            lg = re.search(r'LEGAL (\S+)', o)
+            out['legal'] = lg.group(1) if lg else 'unknown'
         else:
             out['status'] = 'driver-crash'
             out['mismatches'] = [o[-600:]]
